@@ -20,6 +20,14 @@ def runOp (op : String) (args : List String) : String :=
       | .ok m => showMsg m
       | .err => "err"
       | .panic => "panic"
+  | "decv", [f, _] =>
+    match ofHex f with
+    | none => "bad-op"
+    | some bs =>
+      match Frame.decode bs with
+      | .ok m => showMsg m
+      | .err => "err"
+      | .panic => "panic"
   | "enc", [src, rid, ser, body] =>
     match ofHex src, rid.toNat?, ser.toNat?, ofHex body with
     | some s, some rid, some ser, some b =>
